@@ -247,6 +247,8 @@ class Session:
 
     def engine(self, crate='lightning', unwind=8):
         E = X.Engine(self.mir(crate), self.decls(), unwind=unwind)
+        self._engines = getattr(self, '_engines', [])
+        self._engines.append(E)
         return E
 
     def fn(self, name, crate='lightning', first_param=None, nargs=None, contains=None):
@@ -312,7 +314,16 @@ class Session:
         else:
             smts = [s.to_smt2()]
         self._model = None
-        results = solve_many(smts, budget, confirm=(self.tier == 'thorough' and not os.environ.get('VERIF_NO_CVC5')))
+        confirm = (self.tier == 'thorough' and not os.environ.get('VERIF_NO_CVC5'))
+        results = solve_many(smts, budget, confirm=confirm)
+        # an `unknown` is retried once in fresh processes: in `vp check` 4 a query that takes 0.1 s came back
+        # unknown after the full budget in every portfolio member (worker start-up hang, not solver difficulty)
+        redo = [i for i, (v, _) in enumerate(results) if v not in ('sat', 'unsat', 'disagree')]
+        if redo and not any(v == 'sat' for v, _ in results):
+            self.retried = getattr(self, 'retried', 0) + len(redo)
+            again = solve_many([smts[i] for i in redo], budget, confirm=confirm)
+            for i, r in zip(redo, again):
+                results[i] = r
         so = getattr(solve_many, 'second_opinions', None)
         if so:
             self.second_agree = getattr(self, 'second_agree', 0) + so['agree']
@@ -650,9 +661,18 @@ class Session:
         discharged = [r for r in obls if r['verdict'] in ('holds', 'known-finding')]
         wit = [r for r in self.records if r['kind'] == 'witness' and r['verdict'] == 'sat']
         fns = sorted({f for r in self.records for f in r.get('functions', [])})
+        m_states = sum(e.stat_states for e in getattr(self, '_engines', []))
+        m_edges = sum(e.stat_edges for e in getattr(self, '_engines', []))
+        k_states, k_edges = getattr(self, 'k_steps', 0), getattr(self, 'k_vccs', 0)
         ev = {
             'property_id': self.prop, 'tier': self.tier, 'seed': self.seed, 'level': 'model_checking',
             'coverage': {
+                'states': m_states + k_states,
+                'transitions': m_edges + k_edges,
+                'states_transitions_meaning': 'symbolic, not concrete: states = (MIR basic block, loop-unrolling context) instances executed by engine M, '
+                                              'each standing for every concrete state that reaches it under its path condition (%d) + CBMC program-expression steps '
+                                              'of the Kani harnesses (%d); transitions = control-flow edges followed by engine M (%d) + verification conditions '
+                                              'generated by CBMC (%d). The deciding quantity is obligations/discharged below.' % (m_states, k_states, m_edges, k_edges),
                 'evaluations': self.queries,
                 'distinct_nontrivial': len(discharged),
                 'rule': rule or ('each evaluation is one SMT query (z3) over the symbolic execution of the named MIR functions; an obligation is '
@@ -677,8 +697,12 @@ class Session:
             'inconclusive': self.inconclusive,
             'known_findings_reported': [k[0] for k in self.known],
         }
-        os.makedirs(os.path.join(VERIF, 'evidence'), exist_ok=True)
-        with open(os.path.join(VERIF, 'evidence', self.prop + '.json'), 'w') as fh:
+        # a filtered run (VERIF_ONLY / VERIF_NO_KANI: development aid) is not evidence for the property: keep the
+        # evidence file of the last complete run and write this one to the untracked cache
+        partial = bool(os.environ.get('VERIF_ONLY') or os.environ.get('VERIF_NO_KANI'))
+        edir = os.path.join(CACHE, 'evidence-partial') if partial else os.path.join(VERIF, 'evidence')
+        os.makedirs(edir, exist_ok=True)
+        with open(os.path.join(edir, self.prop + '.json'), 'w') as fh:
             json.dump(ev, fh, indent=1, default=str)
         for (oid, what) in self.known:
             print('KNOWN-FINDING: property=%s %s %s' % (self.prop, oid, what))
@@ -760,13 +784,16 @@ def _z3_variant(smt, budget, seed, arith, q, tag):
                     out[d.name()] = False
                 elif Z.is_int_value(v):
                     out[d.name()] = v.as_long()
-            q.put((tag, 'sat', out))
+            q.send((tag, 'sat', out))
         elif r0 == Z.unsat:
-            q.put((tag, 'unsat', None))
+            q.send((tag, 'unsat', None))
         else:
-            q.put((tag, 'unknown', None))
+            q.send((tag, 'unknown', None))
     except Exception as e:          # pragma: no cover
-        q.put((tag, 'unknown', str(e)))
+        try:
+            q.send((tag, 'unknown', str(e)))
+        except Exception:
+            pass
 
 
 def _cvc5_variant(smt, budget, q, tag):
@@ -782,13 +809,16 @@ def _cvc5_variant(smt, budget, q, tag):
         out = (r.stdout or '').strip().split('\n')[0] if (r.stdout or '').strip() else ''
         os.unlink(path)
         if out == 'unsat' and '(error' not in (r.stdout + r.stderr):
-            q.put((tag, 'unsat', None))
+            q.send((tag, 'unsat', None))
         elif out == 'sat' and '(error' not in (r.stdout + r.stderr):
-            q.put((tag, 'cvc5-sat', None))
+            q.send((tag, 'cvc5-sat', None))
         else:
-            q.put((tag, 'unknown', None))
+            q.send((tag, 'unknown', None))
     except Exception:
-        q.put((tag, 'unknown', None))
+        try:
+            q.send((tag, 'unknown', None))
+        except Exception:
+            pass
 
 
 def _kill_group(p):
@@ -813,7 +843,10 @@ def solve_many(smts, budget, confirm=False):
     ctx = mp.get_context('fork')
     maxproc = int(os.environ.get('VERIF_JOBS', '12'))
     nvar = len(VARIANTS) if len(smts) * len(VARIANTS) <= 4 * maxproc else 2
-    q = ctx.Queue()
+    # one pipe per worker: a shared multiprocessing.Queue has a shared write lock, and a sibling that is
+    # SIGKILLed while holding it (we kill the losers of the portfolio) blocks every later result of the call
+    from multiprocessing.connection import wait as conn_wait
+    conns = {}            # tag -> parent end of the worker's pipe
     pending = []          # (query idx, variant idx)
     for v in range(nvar):
         for i in range(len(smts)):
@@ -829,18 +862,24 @@ def solve_many(smts, budget, confirm=False):
     def launch(i, v):
         kind, seed, arith = VARIANTS[v]
         tag = (i, v)
+        rx, tx = ctx.Pipe(duplex=False)
         if kind == 'z3':
-            p = ctx.Process(target=_z3_variant, args=(smts[i], budget, seed, arith, q, tag))
+            p = ctx.Process(target=_z3_variant, args=(smts[i], budget, seed, arith, tx, tag))
         else:
-            p = ctx.Process(target=_cvc5_variant, args=(smts[i], budget, q, tag))
+            p = ctx.Process(target=_cvc5_variant, args=(smts[i], budget, tx, tag))
         p.daemon = True
         p.start()
+        tx.close()
         running[tag] = (p, time.time())
+        conns[tag] = rx
 
     def kill_query(i):
         for tag in [t for t in running if t[0] == i]:
             p, _ = running.pop(tag)
             _kill_group(p)
+            c = conns.pop(tag, None)
+            if c is not None:
+                c.close()
     def open_confirmations():
         if not confirm:
             return False
@@ -855,21 +894,34 @@ def solve_many(smts, budget, confirm=False):
             i, v = pending.pop(0)
             if result[i] is None or (confirm and result[i][0] == 'unsat' and second[i] is None and VARIANTS[v][0] != decided_by[i]):
                 launch(i, v)
-        try:
-            tag, verdict, model = q.get(timeout=1.0)
-        except Exception:
-            # reap crashed / timed-out workers
+        msg = None
+        ready = conn_wait([conns[t] for t in running if t in conns], timeout=1.0) if running else []
+        for c in ready:
+            t = [k for k, v in conns.items() if v is c][0]
+            try:
+                msg = c.recv()
+            except (EOFError, OSError):
+                msg = (t, 'unknown', None)          # the worker died without an answer
+            c.close()
+            conns.pop(t, None)
+            break
+        if msg is None:
+            # reap timed-out workers
             now = time.time()
             for tag in list(running):
                 p, t0 = running[tag]
-                if not p.is_alive() or now - t0 > budget + 30:
+                if now - t0 > budget + 30:
                     running.pop(tag)
                     _kill_group(p)
+                    c = conns.pop(tag, None)
+                    if c is not None:
+                        c.close()
                     i = tag[0]
                     unknowns[i] += 1
                     if result[i] is None and unknowns[i] >= nvar:
                         result[i] = ('unknown', None)
             continue
+        tag, verdict, model = msg
         i = tag[0]
         if tag in running:
             running.pop(tag)[0].join(timeout=1)
@@ -889,6 +941,9 @@ def solve_many(smts, budget, confirm=False):
                 # keep the other solver family running for a second opinion, drop same-family variants
                 for t in [t for t in running if t[0] == i and VARIANTS[t[1]][0] == kind]:
                     _kill_group(running.pop(t)[0])
+                    c = conns.pop(t, None)
+                    if c is not None:
+                        c.close()
             else:
                 kill_query(i)
             pending[:] = [(a, b) for (a, b) in pending if a != i or (confirm and verdict == 'unsat' and VARIANTS[b][0] != kind)]
@@ -898,6 +953,8 @@ def solve_many(smts, budget, confirm=False):
                 result[i] = ('unknown', None)
     for tag in list(running):
         _kill_group(running[tag][0])
+    for c in conns.values():
+        c.close()
     # stale temp files of killed cvc5 workers
     for fn in os.listdir(CACHE):
         if fn.startswith('tmp') and fn.endswith('.smt2'):
